@@ -91,6 +91,7 @@ func Reset() {
 	extractOrigin = map[int][3]int{}
 	originTerm = map[int]*Term{}
 	sliceOrigin = map[int][]origin{}
+	rotTreeMemo = map[int]int{}
 	nextID = 1
 	True = mk(&Term{K: KTrue})
 	False = mk(&Term{K: KFalse})
@@ -938,6 +939,49 @@ func isRot(t *Term) bool {
 		h.Lo == 0 && l.Lo == h.Hi+1 && l.Hi == h.Args[0].W-1
 }
 
+// maxRotPush bounds the work of pushing a slice through nested atomic rotations (see extract1).
+// Feistel networks that rotate one word per round stay far below it (Twofish: 8); Keccak-f,
+// ChaCha, BLAKE2 exceed it after the first round(s) and keep the opaque form.
+const maxRotPush = 16
+
+var rotTreeMemo = map[int]int{}
+
+// rotTree counts the atomic rotations in the tree unfolding of t, saturating at maxRotPush+1,
+// descending only through the operators a slice is pushed through by extract1 (bitwise
+// operators, concat/extract/sext, ite arms, modular add/neg, and rotations themselves);
+// everything else (variables, UF and table applications, products, shifts) is a leaf.
+func rotTree(t *Term) int {
+	var args []*Term
+	n := 0
+	switch t.K {
+	case KAnd, KOr, KXor, KNot, KExtract, KSext, KAdd, KNeg:
+		args = t.Args
+	case KConcat:
+		if isRot(t) {
+			n = 1
+			args = t.Args[0].Args // the rotated term, once
+		} else {
+			args = t.Args
+		}
+	case KIte:
+		args = t.Args[1:]
+	default:
+		return 0
+	}
+	if v, ok := rotTreeMemo[t.ID]; ok {
+		return v
+	}
+	for _, x := range args {
+		n += rotTree(x)
+		if n > maxRotPush {
+			n = maxRotPush + 1
+			break
+		}
+	}
+	rotTreeMemo[t.ID] = n
+	return n
+}
+
 // rotOf returns the atomic rotation if Concat(hiPart, loPart) is a rotation of a bitwise term.
 func rotOf(hiPart, loPart *Term) *Term {
 	o0, ok0 := extractOrigin[hiPart.ID]
@@ -966,6 +1010,26 @@ func extract1(a *Term, hi, lo int) *Term {
 		return Extract(a.Args[0], a.Lo+hi, a.Lo+lo)
 	case KConcat:
 		if isRot(a) {
+			// A slice that lies inside one half of the rotation is that slice of the rotated
+			// term b itself, in b's own canonical (pushed-down) form: byte(rotl(b, 8)) and
+			// byte(b >> 24) are one term (Twofish: g(ROL(x, 8)) vs s-box lookups on the bytes
+			// of x), and rotating back by the complementary amount gives two adjacent
+			// canonical slices of b, which Concat fuses to b (Feistel round trips: Twofish
+			// Encrypt rotates ic^(t1+k) right by one, Decrypt rotates it left by one). A slice
+			// that spans both halves stays an opaque extraction of the rotation, and so does
+			// every slice when b nests more than maxRotPush rotations (rotTree): there the
+			// push-down would cascade from rotation to rotation (Keccak-f from the second
+			// round on does not finish), which is what atomic rotations exist to prevent.
+			h, l := a.Args[0], a.Args[1]
+			b := h.Args[0]
+			if rotTree(b) <= maxRotPush {
+				switch {
+				case hi < l.W:
+					return Extract(b, l.Lo+hi, l.Lo+lo)
+				case lo >= l.W:
+					return Extract(b, hi-l.W, lo-l.W)
+				}
+			}
 			return mk(&Term{K: KExtract, W: nw, Args: []*Term{a}, Hi: hi, Lo: lo})
 		}
 		// select overlapping parts
